@@ -54,6 +54,7 @@ def run_cases(work, binp, cases, d, nsh):
                         c = json.loads(line)
                         break
             rec = {"ev": "WireCase", "case": case, "frames": 1, "wireLen": 0, "sealed": True, "canary": False,
+                   "replyFrames": 0, "replySealed": True, "injected": 0, "actedMut": 0, "actedVersion": 0, "changedMut": 0,
                    "sentDigest": "", "acted": False, "delivered": "", "reply": "none", "nodeOps": 0, "mutated": True,
                    "note": "process died", "panic": (msg[0] if msg else "panic")[:200]}
             for k in ("s", "r", "msg", "path", "peerCrc", "shrinks", "attack", "foreignKey", "otherLabel"):
